@@ -97,6 +97,41 @@ def check_member(spec, h, evs, partners, args, via_file):
     return out
 
 
+def check_nonfinite(spec, ev, how):
+    """States whose accumulators are not finite (a fill with infinite weight, or scaling by +inf): only the
+    serialisation obligations are asserted (the reference model does not define content for infinite weights)."""
+    import histogrammar as hg
+
+    args = {"spec": spec, "ev": core.show_evs([ev])[0], "how": how}
+    out = []
+    try:
+        h = S.build(spec)
+        if how == "fill(w=inf)":
+            h.fill(A.fresh(ev[0]), float("inf"))
+        elif how == "fill;fill(w=inf)":
+            h.fill(A.fresh(ev[0]), 1.0)
+            h.fill(A.fresh(ev[0]), float("inf"))
+        else:
+            h.fill(A.fresh(ev[0]), 1.0)
+            h = h * float("inf")
+    except Exception:
+        return out  # whether such a state can be built at all is not C04's business
+    try:
+        doc = h.toJson()
+        text = json.dumps(doc, allow_nan=False)
+    except Exception as e:
+        return [core.v_exc(PROP, "nonfinite", "toJson / json.dumps(allow_nan=False) raised on non-finite contents", e, args)]
+    try:
+        r = hg.Factory.fromJson(json.loads(text))
+        d = C.diff(r.toJson(), doc, tol_keys=())
+        if d:
+            out.append(core.v_diff(PROP, "nonfinite", "reload of non-finite contents re-serialises differently", d,
+                                   r.toJson(), args))
+    except Exception as e:
+        out.append(core.v_exc(PROP, "nonfinite", "fromJson raised on a toJson() document with non-finite contents", e, args))
+    return out
+
+
 def make_menu(spec, tier):
     recs = A.records(spec, "mid", cap=6 if tier == "quick" else 8)
     events = [(r, 1.0) for r in recs] + [(recs[0], 0.5)]
@@ -143,6 +178,12 @@ def _tree(task):
         pass  # failing operations are reported by C05
 
     st = X.bfs(spec, menu, H, P, on_state, on_error)
+    if not has_transform(spec):
+        for ev in menu["events"][:4]:
+            for how in ("fill(w=inf)", "fill;fill(w=inf)", "fill;*inf"):
+                acc.add(check_nonfinite(spec, ev, how))
+                acc.n("nonfinite_states")
+                acc.n("roundtrips")
     acc.n("states", st["states"])
     acc.n("transitions", st["transitions"])
     acc.sample({"tree": S.sid(spec), "history": X.show_history([("fill", 0, 0), ("copy", 0), ("fill", 1, 1)], menu)[:3],
@@ -212,6 +253,8 @@ def run(tier, seed):
 
 def replay(driver, args):
     spec = args["spec"]
+    if driver == "nonfinite":
+        return check_nonfinite(spec, core.unshow_evs([args["ev"]])[0], args["how"])
     menu = menu_from_args(args["menu"])
     hist = [tuple(op) for op in args["history"]]
     pool, refs = X.replay(spec, hist, menu)
